@@ -6,14 +6,14 @@ package mat
 // Postconditions are taken from property C17: "4x4 matrix addition is entry-wise and
 // multiplication row-by-column, with the identity and inverse laws".
 
-//@ func Identity
+//@ func Identity pure
 //@   props C17
 //@   returns r
 //@   ensures diag: r.X00 == 1 && r.X11 == 1 && r.X22 == 1 && r.X33 == 1
 //@   ensures offdiag: r.X01 == 0 && r.X02 == 0 && r.X03 == 0 && r.X10 == 0 && r.X12 == 0 && r.X13 == 0 &&
 //@           r.X20 == 0 && r.X21 == 0 && r.X23 == 0 && r.X30 == 0 && r.X31 == 0 && r.X32 == 0
 
-//@ func Matrix4x4.Add
+//@ func Matrix4x4.Add pure
 //@   props C17
 //@   returns r
 //@   ensures entrywise_row0: r.X00 == a.X00 + b.X00 && r.X01 == a.X01 + b.X01 && r.X02 == a.X02 + b.X02 && r.X03 == a.X03 + b.X03
@@ -21,7 +21,7 @@ package mat
 //@   ensures entrywise_row2: r.X20 == a.X20 + b.X20 && r.X21 == a.X21 + b.X21 && r.X22 == a.X22 + b.X22 && r.X23 == a.X23 + b.X23
 //@   ensures entrywise_row3: r.X30 == a.X30 + b.X30 && r.X31 == a.X31 + b.X31 && r.X32 == a.X32 + b.X32 && r.X33 == a.X33 + b.X33
 
-//@ func Matrix4x4.Multiply
+//@ func Matrix4x4.Multiply pure
 //@   props C17
 //@   returns r
 //@   ensures row0: r.X00 == a.X00*b.X00 + a.X01*b.X10 + a.X02*b.X20 + a.X03*b.X30 &&
@@ -41,9 +41,56 @@ package mat
 //@                 r.X32 == a.X30*b.X02 + a.X31*b.X12 + a.X32*b.X22 + a.X33*b.X32 &&
 //@                 r.X33 == a.X30*b.X03 + a.X31*b.X13 + a.X32*b.X23 + a.X33*b.X33
 
-//@ func Matrix4x4.MulPosition
+//@ func Matrix4x4.MulPosition pure
 //@   props C17
 //@   returns r
 //@   ensures affine: r.X() == a.X00*b.X() + a.X01*b.Y() + a.X02*b.Z() + a.X03 &&
 //@                   r.Y() == a.X10*b.X() + a.X11*b.Y() + a.X12*b.Z() + a.X13 &&
 //@                   r.Z() == a.X20*b.X() + a.X21*b.Y() + a.X22*b.Z() + a.X23
+
+//@ func Matrix4x4.Determinant pure
+//@   props C17
+//@ func Matrix4x4.Inverse pure
+//@   props C17
+
+//@ spec isIdentity(m Matrix4x4) bool = m.X00 == 1 && m.X11 == 1 && m.X22 == 1 && m.X33 == 1 &&
+//@      m.X01 == 0 && m.X02 == 0 && m.X03 == 0 && m.X10 == 0 && m.X12 == 0 && m.X13 == 0 &&
+//@      m.X20 == 0 && m.X21 == 0 && m.X23 == 0 && m.X30 == 0 && m.X31 == 0 && m.X32 == 0
+
+// Determinant is the cofactor expansion along the first row (statement: "identity and inverse laws"
+// need the determinant the inverse divides by to be the determinant).
+//@ spec det3(a float64, b float64, c float64, d float64, e float64, f float64, g float64, h float64, i float64) float64 =
+//@      a*(e*i - f*h) - b*(d*i - f*g) + c*(d*h - e*g)
+//@ lemma determinant_is_cofactor_expansion(a Matrix4x4)
+//@   props C17
+//@   ensures a.Determinant() ==
+//@       a.X00*det3(a.X11,a.X12,a.X13, a.X21,a.X22,a.X23, a.X31,a.X32,a.X33)
+//@     - a.X01*det3(a.X10,a.X12,a.X13, a.X20,a.X22,a.X23, a.X30,a.X32,a.X33)
+//@     + a.X02*det3(a.X10,a.X11,a.X13, a.X20,a.X21,a.X23, a.X30,a.X31,a.X33)
+//@     - a.X03*det3(a.X10,a.X11,a.X12, a.X20,a.X21,a.X22, a.X30,a.X31,a.X32)
+
+//@ lemma identity_is_neutral(a Matrix4x4)
+//@   props C17
+//@   ensures left: Identity().Multiply(a) == a
+//@   ensures right: a.Multiply(Identity()) == a
+
+//@ lemma inverse_right(a Matrix4x4)
+//@   props C17
+//@   requires a.Determinant() != 0
+//@   ensures isIdentity(a.Multiply(a.Inverse()))
+//@ lemma inverse_left(a Matrix4x4)
+//@   props C17
+//@   requires a.Determinant() != 0
+//@   ensures isIdentity(a.Inverse().Multiply(a))
+
+//@ lemma add_commutes_and_zero(a Matrix4x4, b Matrix4x4)
+//@   props C17
+//@   ensures a.Add(b) == b.Add(a)
+
+//@ lemma mulposition_composes(a Matrix4x4, b Matrix4x4, v vector3.Float64)
+//@   props C17
+//@   requires a.X30 == 0 && a.X31 == 0 && a.X32 == 0 && a.X33 == 1
+//@   requires b.X30 == 0 && b.X31 == 0 && b.X32 == 0 && b.X33 == 1
+//@   ensures x: a.Multiply(b).MulPosition(v).X() == a.MulPosition(b.MulPosition(v)).X()
+//@   ensures y: a.Multiply(b).MulPosition(v).Y() == a.MulPosition(b.MulPosition(v)).Y()
+//@   ensures z: a.Multiply(b).MulPosition(v).Z() == a.MulPosition(b.MulPosition(v)).Z()
